@@ -11,6 +11,7 @@
 import Props.Tables
 import Proofs.EvalJson
 import Proofs.JsonValue
+import Proofs.IntCodec
 namespace Jmes.Props
 open Jmes Jmes.Interp
 
@@ -85,5 +86,10 @@ theorem C16_string_round_trip (s : Bytes) (hv : ValidUtf8 s) :
   simp only [List.append_nil] at this
   rw [this]
   rfl
+
+/-- The contract `NumCodec` is satisfiable: the integer instance of the number
+    interface meets it (decimal text is a JSON number token that parses back),
+    so `C16_serialise_and_read_back` is not vacuous. -/
+theorem C16_num_codec_satisfiable : Json.NumCodec Int := intNumCodec
 
 end Jmes.Props
